@@ -66,7 +66,6 @@ structure I1 (s : State) : Prop where
   freedS : ∀ i, s.freed = true → i < s.nextH → s.gone (.S i) = true
   freedF : ∀ a, s.freed = true → (s.loc a).m ≠ .fLdState
   ciCl : ∀ a, (s.loc a).m = .ciStRdrop → s.closed .R = true
-  rSide : ∀ a, rOnly (s.loc a).m → a = .R
   rdropCl : s.rdrop = true → s.closed .R = true
   recvOpen : inRecvBody (s.loc .R).m → s.closed .R = false
   dcST : ∀ a, (s.loc a).m = .dcCasST → s.rdrop = true
@@ -109,7 +108,7 @@ structure I4 (s : State) : Prop where
   moverRes : ∀ i, s.mover = some i → s.sres i = some .ok ∨ (s.loc (.S i)).m = .sSwapSent
 
 theorem i1_init (progS : Nat → List Op) (progR : List Op) : I1 (init progS progR) := by
-  constructor <;> simp [init, inBody, inRecvBody, isEnd, rOnly]
+  constructor <;> simp [init, inBody, inRecvBody, isEnd]
   intro i hi
   cases i with
   | zero => omega
@@ -139,7 +138,7 @@ syntax "os_fin" : tactic
 macro_rules
   | `(tactic| os_fin) => `(tactic| (
   (try simp only [upd_apply, updN_apply, if_true, if_false, ne_eq, not_false_eq_true, reduceCtorEq, reduceIte]) <;>
-  simp only [inW, inT, inBody, rOnly, inRecvBody, isEnd, isErrOf, Ag.idx, Ag.isS, allGone_iff, upd_apply, updN_apply,
+  simp only [inW, inT, inBody, inRecvBody, isEnd, isErrOf, Ag.idx, Ag.isS, allGone_iff, upd_apply, updN_apply,
     List.nil_append, List.append_nil, Option.toList_some, Option.toList_none] at * <;> grind))
 
 /-- close one clause of an invariant about the updated state: case split on "is it the acting handle"
